@@ -1,6 +1,7 @@
 import ExponaxModel.Proofs.OperatorAlgebra
 import ExponaxModel.Proofs.DFT
 import ExponaxModel.Proofs.ReadOffND
+import ExponaxModel.Proofs.SpectralOpsEq
 /-
 C05 — spectral differential operators are exact on band-limited fields.
 `Nonlin.deriv`, `Nonlin.laplace`, `Nonlin.poissonStep`, `Nonlin.derivativeM` mirror `exponax/_spectral.py`
@@ -98,5 +99,30 @@ theorem C05_poisson_solves (c : Cfg ℂ) (s : ℝ) (hs : c.s = (s : ℂ)) (hs0 :
         (ReadOff.poissonSpec c 2 (Transform.rfftnM c.D c.N (ExactLinear.modeField c.D c.N κ a φ)))) =
       ExactLinear.modeField c.D c.N κ (-a) φ ∧ (ReadOff.poissonSpec c 2 fh).getD 0 0 = 0 :=
   ⟨ReadOff.poisson_solves_neg_f c s hs hs0 hD hN κ hκ hne a φ, ReadOff.poissonSpec_mean_zero c s hs fh⟩
+
+/-! ### the spectral-derivative and Poisson code itself, regenerated from `_spectral.py::derivative` and `_poisson.py`
+on every run (`Gen.SpectralOps.*`), is the model operator the theorems above are about -/
+open Exponax.SpectralOpsEq in
+/-- `exponax.derivative` (single channel: one output row per axis; multi-channel: row `c·D + d`) is the model's
+    spectral derivative `(i k_d 2π/L)^order` applied between the model transforms -/
+theorem C05_generated_derivative (D N C : ℕ) (hD : 1 ≤ D) (hN : 0 < N) (L : ℂ) (order : ℕ) (field : MC ℂ) :
+    Gen.SpectralOps.derivative D N 1 L order "ij" field =
+        tabC D (fun d => derivativeM (cfg D N L) order d (field.getD 0 #[])) ∧
+      (C ≠ 1 → Gen.SpectralOps.derivative D N C L order "ij" field =
+        tabC (C * D) (fun p => derivativeM (cfg D N L) order (p % D) (field.getD (p / D) #[]))) :=
+  ⟨derivative_single_eq D N hD hN L order field, fun hC => derivative_multi_eq D N C hC hD hN L order field⟩
+
+open Exponax.SpectralOpsEq in
+/-- `Poisson.__init__` stores `1/Δ̂` with `0` at every mode where the symbol vanishes, and `Poisson.step` divides by it
+    between the transforms: the model's `poissonStep` -/
+theorem C05_generated_poisson (D N C : ℕ) (hD : 1 ≤ D) (hN : 0 < N) (L : ℂ) (order : ℕ) (f : MC ℂ) :
+    Gen.SpectralOps.Poisson_init_inv_operator D N L order =
+        tab2 1 (Layout.numModes D N) (fun _ h =>
+          if laplace (cfg D N L) order h = 0 then 0 else 1 / laplace (cfg D N L) order h) ∧
+      Gen.SpectralOps.Poisson_step D N C L order f =
+        tabC C (fun ch => Transform.irfftnM D N (Transform.tab (Layout.numModes D N) (fun h =>
+          poissonStep (cfg D N L) order h ((Transform.rfftnM D N (f.getD ch #[])).getD h 0)))) :=
+  ⟨Poisson_init_inv_operator_eq D N hD hN L order, Poisson_step_eq D N C hD hN L order f⟩
+
 
 end Exponax
